@@ -3,6 +3,7 @@ package main
 // calls.go - calls: conversions, builtins, contracts, closures, hooks, library models.
 
 import (
+	"os"
 	"fmt"
 	"go/ast"
 	"go/constant"
@@ -550,6 +551,12 @@ func (ex *Exec) applyFunc(st *State, fn *types.Func, args []*Val, e *ast.CallExp
 		ex.wf(st, results[0])
 	} else if pureLib[key] && sig.Results().Len() > 1 {
 		results = ex.pureAppN(st, fn, args)
+	} else if rs, ok := ex.inlineDecl(st, fn, u, args, pos); ok {
+		// a helper of the same package without a contract, straight-line and
+		// not recursive: executed in place (so extracting a few statements
+		// into a helper does not blind the caller's contract)
+		results = rs
+		ex.W.Abstr["repo function without contract inlined at its call sites: "+key] = true
 	} else {
 		for i := 0; i < sig.Results().Len(); i++ {
 			rt := sig.Results().At(i).Type()
@@ -1023,6 +1030,118 @@ func (ex *Exec) inlineClosure(st *State, fn *Val, args []*Val, pos token.Pos) []
 		rets = ex.zeroResults(st, sig)
 	}
 	return rets
+}
+
+// inlineDecl executes the body of a contract-less function of the package
+// under verification in place of the call.  Only straight-line helpers (no
+// loops, go, defer, select, labels) that are not already being inlined.
+func (ex *Exec) inlineDecl(st *State, fn *types.Func, u *Unit, args []*Val, pos token.Pos) ([]*Val, bool) {
+	if u == nil || ex.U == nil || u != ex.U || os.Getenv("GOVC_NOINLINE") != "" {
+		return nil, false
+	}
+	key := calleeKey(fn)
+	short := key[strings.Index(key, ".")+1:]
+	fd := u.Funcs[short]
+	if fd == nil || fd.Body == nil || len(fd.Body.List) > 40 || fd.Type.TypeParams != nil {
+		return nil, false
+	}
+	if ex.inlining == nil {
+		ex.inlining = map[string]bool{}
+	}
+	if ex.inlining[short] || ex.inlineDepth > 4 || short == ex.FNameShort() {
+		return nil, false
+	}
+	simple := true
+	ast.Inspect(fd.Body, func(x ast.Node) bool {
+		switch x.(type) {
+		case *ast.ForStmt, *ast.RangeStmt, *ast.GoStmt, *ast.DeferStmt, *ast.SelectStmt, *ast.LabeledStmt, *ast.FuncLit, *ast.TypeSwitchStmt:
+			simple = false
+		}
+		return simple
+	})
+	if !simple {
+		return nil, false
+	}
+	sig := fn.Type().(*types.Signature)
+	ex.inlining[short] = true
+	ex.inlineDepth++
+	// the helper's own safety (nil, bounds) is not the caller's obligation: it
+	// would be the helper's, had it a contract; facts are assumed as usual
+	saveSafety := ex.safety
+	ex.safety = false
+	defer func() { ex.inlineDepth--; delete(ex.inlining, short); ex.safety = saveSafety }()
+	savedNames := map[string]types.Object{}
+	for k, v := range st.names {
+		savedNames[k] = v
+	}
+	fr := &Frame{sig: sig}
+	st.frames = append(st.frames, fr)
+	prefix := len(st.pc)
+	saveInfo := ex.Info
+	ex.Info = u.Pkg.TypesInfo
+	// receiver, then parameters
+	rest := args
+	if fd.Recv != nil && len(fd.Recv.List) == 1 && len(args) > 0 {
+		if len(fd.Recv.List[0].Names) == 1 {
+			if o := ex.Info.Defs[fd.Recv.List[0].Names[0]]; o != nil {
+				st.vars[o] = ex.coerce(st, args[0], o.Type())
+				st.names[fd.Recv.List[0].Names[0].Name] = o
+			}
+		}
+		rest = args[1:]
+	}
+	ex.bindParams(st, fd.Type, rest)
+	if fd.Type.Results != nil {
+		for _, f := range fd.Type.Results.List {
+			for _, n := range f.Names {
+				if o := ex.Info.Defs[n]; o != nil {
+					st.vars[o] = ex.zero(o.Type())
+					st.names[n.Name] = o
+					fr.results = append(fr.results, o)
+				}
+			}
+		}
+	}
+	flows := ex.block(st, fd.Body.List)
+	var outs []flowOut
+	for _, f := range flows {
+		switch f.kind {
+		case flowNormal, flowReturn:
+			if f.st.dead {
+				continue
+			}
+			rets := f.rets
+			if f.kind == flowNormal && len(fr.results) > 0 {
+				for _, o := range fr.results {
+					rets = append(rets, f.st.vars[o])
+				}
+			}
+			f.st.frames = f.st.frames[:len(f.st.frames)-1]
+			outs = append(outs, flowOut{st: f.st, rets: rets})
+		}
+	}
+	ex.Info = saveInfo
+	if len(outs) == 0 {
+		st.assume(tFalse)
+		st.dead = true
+		st.names = savedNames
+		return ex.zeroResults(st, sig), true
+	}
+	m, rets := ex.mergeStates(prefix, outs, sig.Results().Len())
+	*st = *m
+	st.names = savedNames
+	if len(rets) == 0 && sig.Results().Len() > 0 {
+		rets = ex.zeroResults(st, sig)
+	}
+	return rets, true
+}
+
+// FNameShort is the name of the function under verification without its package.
+func (ex *Exec) FNameShort() string {
+	if i := strings.Index(ex.FName, "."); i >= 0 {
+		return ex.FName[i+1:]
+	}
+	return ex.FName
 }
 
 type flowOut struct {
